@@ -3,3 +3,4 @@
     ensures
         final(w).tracker == old(w).tracker && final(w).journal == old(w).journal && final(w).poison == old(w).poison, // [C01:compaction-frame]
         forall|k: u64| old(w).trees.dom().contains(k) ==> final(w).trees.dom().contains(k) && (#[trigger] final(w).trees[k]).applied == old(w).trees[k].applied, // [C01:maintenance-keeps-applied-ops]
+        !old(w).reclaim_due ==> !final(w).reclaim_due,   // (only a flush makes a reclaim pass due)
